@@ -261,6 +261,9 @@ class Analysis:
                     return "<method>%s" % meth
             if meth in BENIGN_METHODS:
                 return None
+            if isinstance(v, ast.Name) and v.id in BUILTINS and v.id not in m.funcs and v.id not in m.classes \
+                    and v.id not in m.globals:
+                return None   # a method of a builtin type called on the type itself (dict.fromkeys, str.join, ...)
             return "<method>%s" % meth
         return "<unknown>computed-callee"
 
@@ -346,6 +349,24 @@ class Analysis:
         # name in the package; only when there is none does it stay unknown
         # (unknown callees count as mode dependent in Proofs/CacheSpec.v)
         params = {a.arg for a in node.args.args + node.args.kwonlyargs + node.args.posonlyargs}
+        # a local name bound exactly once, to a plain name or attribute (`compile_ = re.compile`, `f = self.method`),
+        # and then called: the call goes where the bound expression goes
+        stores = {}
+        for n in ast.walk(node):
+            if isinstance(n, ast.Name) and isinstance(n.ctx, ast.Store):
+                stores[n.id] = stores.get(n.id, 0) + 1
+        alias = {}
+        for n in ast.walk(node):
+            if isinstance(n, ast.Assign) and len(n.targets) == 1 and isinstance(n.targets[0], ast.Name) \
+                    and stores.get(n.targets[0].id) == 1 and n.targets[0].id not in params \
+                    and isinstance(n.value, (ast.Name, ast.Attribute)):
+                alias[n.targets[0].id] = n.value
+        for c in sorted(callees):
+            if c.startswith("<unknown>") and c[len("<unknown>"):] in alias:
+                tgt = self.resolve_call(mod, cls, alias[c[len("<unknown>"):]])
+                callees.discard(c)
+                if tgt is not None:
+                    callees.add(tgt)
         for c in sorted(callees):
             # a call of one of the function's own parameters (a callable handed in): any package function that
             # is ever mentioned as a value rather than called
